@@ -97,6 +97,9 @@ type Interp struct {
 	errTypes map[string]types.Type
 	pool     []Value
 	timeFmtN int
+	FPContracts bool
+	fpInt    map[*Term]*Term
+	fpDiv    map[*Term]map[uint64]*Term
 	atoiMap  map[*Term][]*Term
 	fmtTimeVals map[*Object]*Term
 	md5Keys  map[string]int
@@ -817,6 +820,11 @@ func (it *Interp) callFunction(caller *frame, fn *ssa.Function, args []Value, fr
 	if stub, ok := it.lookupStub(fn); ok {
 		return stub(it, caller, site, args)
 	}
+	return it.callBody(caller, fn, args, free, site)
+}
+
+// callBody executes fn's SSA (no stub lookup).
+func (it *Interp) callBody(caller *frame, fn *ssa.Function, args []Value, free []Value, site *ssa.CallCommon) (ret Value) {
 	if fn.Blocks == nil {
 		panic(pathEnd{"notenc", "no body and no stub: " + fn.String()})
 	}
@@ -1220,6 +1228,14 @@ func (it *Interp) binop(op token.Token, a, b Value, ta, tb types.Type) Value {
 			case token.MUL:
 				return st.fbin(OFMul, x, y)
 			case token.QUO:
+				if dv, ok := it.fpDiv[x]; ok && y.IsConst() {
+					if q, ok := dv[y.Val]; ok {
+						it.freshN["fp"]++
+						v := st.Var(fmt.Sprintf("fp#q%d_%d", it.freshN["fp"], x.ID), FPSort)
+						it.fpInt[v] = q
+						return v
+					}
+				}
 				return st.fbin(OFDiv, x, y)
 			case token.LSS:
 				return st.fcmp(OFLt, x, y)
@@ -1462,6 +1478,12 @@ func (it *Interp) convert(v Value, from, to types.Type) Value {
 		case x.S.K == SBV && so.K == SFP:
 			return st.IntToF(x, isSigned(from))
 		case x.S.K == SFP && so.K == SBV:
+			if iv, ok := it.fpInt[x]; ok {
+				if so.W < 64 {
+					return st.Extract(iv, so.W-1, 0)
+				}
+				return iv
+			}
 			return st.FToInt(x, so.W, isSigned(to))
 		case x.S.K == SFP && so.K == SFP:
 			return x
